@@ -124,10 +124,62 @@ func (g *getterInliner) wants(e ast.Expr) bool {
 			if h, _ := g.getter(c); h != nil {
 				found = true
 			}
+			if _, k := MethodLike(g.info, g.pkg, c); k >= 0 {
+				found = true
+			}
 		}
 		return !found
 	})
 	return found
+}
+
+// MethodLikeFunc: an unexported package-level function that is a method in all but spelling: exactly one of its
+// parameters is a pointer to a struct type of the same package (the object the function works on). It answers the index of that parameter, or -1.
+func MethodLikeFunc(pkg *types.Package, fn *types.Func) int {
+	if fn == nil || fn.Pkg() != pkg || fn.Exported() {
+		return -1
+	}
+	sig, _ := fn.Type().(*types.Signature)
+	if sig == nil || sig.Recv() != nil || sig.TypeParams() != nil {
+		return -1
+	}
+	k := -1
+	for i := 0; i < sig.Params().Len(); i++ {
+		pt, ok := sig.Params().At(i).Type().(*types.Pointer)
+		if !ok {
+			continue
+		}
+		nt, ok := types.Unalias(pt.Elem()).(*types.Named)
+		if !ok || nt.Obj().Pkg() != pkg {
+			continue
+		}
+		if _, isStruct := nt.Underlying().(*types.Struct); !isStruct {
+			continue
+		}
+		if k >= 0 {
+			return -1 // two candidates: not clear whose method it would be
+		}
+		k = i
+	}
+	if k >= 0 && sig.Variadic() && k == sig.Params().Len()-1 {
+		return -1
+	}
+	return k
+}
+
+// MethodLike: the call invokes a method-like function by its plain name; it answers the function and the index of the
+// object argument.
+func MethodLike(info *types.Info, pkg *types.Package, c *ast.CallExpr) (*types.Func, int) {
+	id, ok := ast.Unparen(c.Fun).(*ast.Ident)
+	if !ok {
+		return nil, -1
+	}
+	fn, _ := info.Uses[id].(*types.Func)
+	k := MethodLikeFunc(pkg, fn)
+	if k < 0 || k >= len(c.Args) || c.Ellipsis.IsValid() {
+		return nil, -1
+	}
+	return fn, k
 }
 
 func (g *getterInliner) expr(e ast.Expr) (ast.Expr, bool) {
@@ -139,6 +191,29 @@ func (g *getterInliner) expr(e ast.Expr) (ast.Expr, bool) {
 		c, ok := x.(*ast.CallExpr)
 		if !ok {
 			return nil
+		}
+		if fn, k := MethodLike(g.info, g.pkg, c); k >= 0 {
+			// `f(a, obj, b)` shown as `obj.f(a, b)`
+			fid := ast.Unparen(c.Fun).(*ast.Ident)
+			sel := &ast.Ident{NamePos: fid.NamePos, Name: fid.Name}
+			g.info.Uses[sel] = fn
+			sub := func(e ast.Expr) ast.Expr {
+				e2, _ := g.expr(e)
+				if e2 == e {
+					return e // untouched operands keep their identity
+				}
+				return e2
+			}
+			nc := &ast.CallExpr{Fun: &ast.SelectorExpr{X: sub(c.Args[k]), Sel: sel}, Lparen: c.Lparen, Rparen: c.Rparen}
+			for i, a := range c.Args {
+				if i != k {
+					nc.Args = append(nc.Args, sub(a))
+				}
+			}
+			if tv, has := g.info.Types[c]; has {
+				g.info.Types[nc] = tv
+			}
+			return nc
 		}
 		h, body := g.getter(c)
 		if h == nil {
